@@ -47,6 +47,26 @@ def build():
     return os.path.join(tdir, "debug", "codec-harness")
 
 
+SSO_FEATURES = ["sso-min-32bit", "sso-min-64bit", "sso-lv20"]     # inline buffers of 12 / 24 / 48 bytes
+
+
+def build_variant(feature):
+    """The same harness with one of the library's small-string-optimisation features switched on
+    (the default build has none). Own target directory: never overwrites target/debug/codec-harness."""
+    tdir = os.path.join(vlib.WORK, "codec_sso_target", feature)
+    cmd = ["cargo", "build", "--offline", "-q", "-p", "codec-harness", "--features", feature, "--target-dir", tdir]
+    alt = os.environ.get("VERIF_CODEC_REPO")
+    if alt:
+        cmd += ["--config", 'paths=["%s"]' % alt]
+    t0 = time.time()
+    p = vlib.run(cmd, timeout=1500, cwd=vlib.HARNESS, env={"CARGO_NET_OFFLINE": "true"})
+    if p.returncode != 0:
+        vlib.log((p.stderr or "")[-4000:])
+        raise vlib.ToolError("cargo build of codec-harness with feature %s failed" % feature)
+    vlib.log("[build] codec-harness --features %s in %.1fs" % (feature, time.time() - t0))
+    return os.path.join(tdir, "debug", "codec-harness")
+
+
 # ---------------------------------------------------------------- step 1: items from the specification
 
 def gen_items(cfg, wd, tier, timeout=1500):
@@ -295,7 +315,7 @@ def reencode(item, wd):
 
 # ---------------------------------------------------------------- the C02 / C03 / C18 pipeline
 
-def vec_pipeline(prop, mode_trace, cfg, tier, pattern_fn, chunk=100000, hmode_tag="vec"):
+def vec_pipeline(prop, mode_trace, cfg, tier, pattern_fn, chunk=100000, hmode_tag="vec", sso_variants=False):
     """Items -> harness -> judge, chunked. Returns dict with everything the callers report."""
     wd = vlib.workdir(prop)
     binary = build()
@@ -332,8 +352,24 @@ def vec_pipeline(prop, mode_trace, cfg, tier, pattern_fn, chunk=100000, hmode_ta
         for k, v in drift_summary(nodes, drifts, limit=0 if i else 6).items():
             drift_counts[k] = drift_counts.get(k, 0) + v
         os.remove(trie)
+    variants = {}
+    if tier == "thorough" and sso_variants:
+        # the quick vector set again on builds with the small-string optimisation switched on
+        qitems, qn, _ = gen_items(cfg.replace("thorough", "quick"), wd, "quick")
+        for feat in SSO_FEATURES:
+            vb = build_variant(feat)
+            trie = os.path.join(wd, "records_%s.ndjson" % feat)
+            hs = vlib.harness(vb, ["vec", "--vectors", qitems, "--out", trie, "--threads", str(workers(tier))], timeout=1500)
+            viols, drifts, tres = judge(mode_trace, trie, wd, tier)
+            nodes = load_nodes(trie, [n for n, _ in viols])
+            group(prop, nodes, viols, pattern_fn, groups, tag=hmode_tag)
+            variants[feat] = {"vectors": qn, "built": hs.get("built", 0), "violating_records": len(viols)}
+            judged += tres["distinct"] - 2
+            nviol_nodes += len(viols)
+            os.remove(trie)
     return {"wd": wd, "items": nitems, "mc": mc, "groups": groups, "drift": drift_counts, "by_kind": by_kind, "built": built,
-            "panics": panics, "judged": judged, "violating_records": nviol_nodes, "samples": samples, "judge_wall": twall}
+            "panics": panics, "judged": judged, "violating_records": nviol_nodes, "samples": samples, "judge_wall": twall,
+            "sso_variants": variants}
 
 
 def expected_groups():
